@@ -78,3 +78,64 @@ PROPS["C18"] = dict(
              params=dict(quick=dict(n=[2], M=[6]), thorough=dict(n=[3], M=[12]))),
     ],
 )
+
+# ---- join / unite / limit ---------------------------------------------------------------------------
+
+_JOIN_ASSUME = ["time: one symbolic non-decreasing clock; every clock reading may be arbitrarily later than the previous one; Sleep(d) advances by at least d; a ticker may fire at any blocking select (adversarial), within a per-run tick budget",
+                "environment: the consumer eventually takes every slice (sink), releases a no-copy slice only after it was delivered, may overwrite copy-mode slices at once",
+                "elements are symbolic machine integers; the code under test is data-independent"]
+
+def _join_groups(tier_params):
+    return [
+        dict(mod="v2", pkg="join", overlay="harness/v2/join", harness="^VerifC03_join_", params=tier_params("join")),
+        dict(mod="v2", pkg="join/unite", overlay="harness/v2/unite", harness="^VerifC03_unite_", params=tier_params("unite")),
+        dict(mod="v1", pkg="join", overlay="harness/v1/join", harness="^VerifC03_v1join_normal", params=tier_params("join")),
+    ]
+
+def _jp(kind):
+    if kind == "unite":
+        return dict(quick=dict(JS=[1, 2, 3], K=[3], T=[2]), thorough=dict(JS=[1, 2, 3, 4], K=[4], T=[2]))
+    return dict(quick=dict(JS=[1, 2, 3], M=[4], T=[2]), thorough=dict(JS=[1, 2, 3, 4], M=[6], T=[3]))
+
+_JOIN_BOUNDS = dict(quick="join: JoinSize 1..3, 4 elements, <=2 ticks interleaved adversarially at every select, copy and no-copy, timed and untimed; unite: JoinSize 1..3, 3 input slices with lengths 0..JoinSize+1",
+                    thorough="join: JoinSize 1..4, 6 elements, <=3 ticks; unite: JoinSize 1..4, 4 input slices")
+
+for _pid, _txt in [
+    ("C03", "output slices concatenate to the input stream; size rules"),
+    ("C08", "delivered slices are not written to / shared (heap-identity monitors: every store of the engine's heap is checked against the delivered backing arrays)"),
+    ("C09", "greedy slicing without timeout; short slices only after Timeout measured on the symbolic clock"),
+]:
+    PROPS[_pid] = dict(
+        level="model_checking",
+        level_text="Bounded symbolic execution of the real New+main of join (v1, v2) and unite from go/ssa: " + _txt + ". Every select outcome (tick vs. input), copy/no-copy mode and "
+                   "the timeout value are explored/symbolic; each assertion on each path is an SMT query over the symbolic clock and element values.",
+        level_note="Bounds as listed in evidence.bounds; outside: longer streams, more ticks than the budget between two inputs (the loop body is the same for every tick). "
+                   "Trusted: engine, channel/select/ticker model for one goroutine (DESIGN 3.5/3.6), slices.Clone executed from its real SSA body.",
+        technique="symbolic execution of go/ssa with forked select outcomes and a symbolic clock; Int-encoded SMT queries (z3)",
+        bounds=_JOIN_BOUNDS, assumptions=_JOIN_ASSUME, groups=_join_groups(_jp))
+
+PROPS["C08"]["groups"] = PROPS["C08"]["groups"] + [
+    dict(mod="v1", pkg="join", overlay="harness/v1/join", harness="^VerifC16_v1join_stop", params=dict(quick=dict(JS=[2], M=[3], T=[2]), thorough=dict(JS=[2, 3], M=[4], T=[2])))]
+
+PROPS["C11"] = dict(
+    level="model_checking",
+    level_text="Bounded symbolic execution of the real unite New+main: every output slice is checked to be a concatenation of whole input slices in order, oversize inputs alone, "
+               "for every sequence of input lengths in 0..JoinSize+1 and every interleaving of ticks.",
+    level_note="Bounds in evidence.bounds. Trusted: as C03.",
+    technique="symbolic execution of go/ssa with forked select outcomes; SMT (z3)",
+    bounds=_JOIN_BOUNDS, assumptions=_JOIN_ASSUME,
+    groups=[dict(mod="v2", pkg="join/unite", overlay="harness/v2/unite", harness="^VerifC03_unite_", params=_jp("unite"))])
+
+_LIM = dict(quick=dict(M=[0, 1, 2, 3, 4, 5]), thorough=dict(M=[0, 1, 2, 3, 4, 5, 6, 7, 8, 9]))
+for _pid in ("C04", "C12"):
+    PROPS[_pid] = dict(
+        level="model_checking",
+        level_text="Bounded symbolic execution of the real limit New+main on M symbolic elements with Quantity and Interval UNCONSTRAINED valid 64-bit values (the batch loop is bounded by the "
+                   "elements supplied, not by Quantity) and a symbolic clock: batch k starts >= k Intervals after creation, batches hold <= Quantity sends, sends of batches a<b are "
+                   ">= (b-a-1) Intervals apart (these imply the two stated count formulas by the 3-line derivation in DESIGN 7 C04); pass-through, close, pause counts for C12.",
+        level_note="Bound: M elements (quick <=5, thorough <=9), buffered (prefilled) and unbuffered (parked producer) input. Clock readings < 2^62 ns. Trusted: engine, time model.",
+        technique="symbolic execution of go/ssa with a symbolic clock; Int-encoded SMT queries (z3)",
+        bounds=dict(quick="M in 0..5", thorough="M in 0..9"),
+        assumptions=["time model of DESIGN 3.6: lower bounds only (arbitrary delays anywhere); Sleep(d) advances by >= d",
+                     "count formulas follow from the per-batch facts: count <= (k+1)*Q and t >= k*I  =>  count <= Q*(floor(t/I)+1); window: (j-i-1)*I <= W => count <= Q*(floor(W/I)+2)"],
+        groups=[dict(mod="v2", pkg="limit", overlay="harness/v2/limit", harness="^VerifC04_limit_run", params=_LIM)])
